@@ -24,7 +24,9 @@ def modeObs : PlayMode → String
   | .base s => baseObs s
   | .full w =>
     baseObs w.base ++ s!" N={showHand (w.hands .N)} E={showHand (w.hands .E)} S={showHand (w.hands .S)} " ++
-      s!"W={showHand (w.hands .W)} av={showHand (w.base.currentAvailable (w.hands w.base.active))}"
+      s!"W={showHand (w.hands .W)} av={showHand (w.base.currentAvailable (w.hands w.base.active))} " ++
+      s!"avN={showHand (w.base.currentAvailable (w.hands .N))} avE={showHand (w.base.currentAvailable (w.hands .E))} " ++
+      s!"avS={showHand (w.base.currentAvailable (w.hands .S))} avW={showHand (w.base.currentAvailable (w.hands .W))}"
   | .obs o =>
     baseObs o.base ++ s!" me={showSeat o.me} hand={showHand o.hand} " ++
       s!"dh={match o.dummyHand with | none => "none" | some d => showHand d} " ++
